@@ -207,6 +207,9 @@ def run_parent(args) -> int:
     tier = args.tier
     seed = args.seed
     b = check.budget(tier)
+    if os.environ.get("VERIF_BUDGET_S"):
+        # exploration aid for sweeps: cap the per-worker time budget (never raises it above the check's own)
+        b = dict(b, budget_s=min(int(os.environ["VERIF_BUDGET_S"]), b.get("budget_s") or 10**9))
     nworkers = min(b.get("workers", 4), os.cpu_count() or 4)
     total = b.get("cases", 0)
     per = (total + nworkers - 1) // nworkers if total else 0
